@@ -1234,6 +1234,7 @@ impl Monitor {
             match Self::decompress(&p[4..], &ll_src, &ll_dst, Some(size)) {
                 Err(Undec::Unsupported(e)) => v.undecodable = Some(e),
                 Err(Undec::Malformed(cause, e)) => out.add("length", "6lowpan", cause, e),
+                Err(Undec::Protocol(cause, e)) => out.add("protocol", "6lowpan", cause, e),
                 Ok(d) => {
                     let src = v6(&d.packet[8..24]);
                     Self::source_basic(ctx, "ipv6", &src, &format!("6LoWPAN FRAG1 {}>{}", src, v6(&d.packet[24..40])), out);
@@ -1304,6 +1305,7 @@ impl Monitor {
             match Self::decompress(p, &ll_src, &ll_dst, None) {
                 Err(Undec::Unsupported(e)) => v.undecodable = Some(e),
                 Err(Undec::Malformed(cause, e)) => out.add("length", "6lowpan", cause, e),
+                Err(Undec::Protocol(cause, e)) => out.add("protocol", "6lowpan", cause, e),
                 Ok(d) => {
                     let mut v2 = Verdict { class: v.class.clone(), ..Default::default() };
                     self.ipv6(&d.packet, ctx, out, &mut v2, true, d.udp_cksum_elided, false);
@@ -1563,6 +1565,11 @@ impl Monitor {
                 rest = &rest[i + l..];
                 nhc_desc = format!("ext{}", eid);
                 compressed = nhbit == 1;
+            } else if b < 0x80 {
+                // every assigned LOWPAN_NHC id (RFC 6282 extension header / UDP, RFC 7400 GHC) has
+                // the top bit set: this octet cannot be a next-header compression id at all, the
+                // IPHC header that announced one does not fit what follows it
+                return Err(Undec::Protocol("unassigned-nhc-id", format!("IPHC announces a compressed next header but the octet that follows ({:#04x}) is not an assigned LOWPAN_NHC id", b)));
             } else {
                 return Err(Undec::Unsupported(format!("LOWPAN_NHC octet {:#04x}", b)));
             }
@@ -1588,4 +1595,6 @@ enum Undec {
     Unsupported(String),
     /// the compressed header itself is inconsistent with the frame
     Malformed(&'static str, String),
+    /// the compressed header claims an encoding that does not exist
+    Protocol(&'static str, String),
 }
